@@ -120,7 +120,7 @@ func runC19(c *Ctx) {
 		jump    time.Duration
 		rotate  bool
 		corrupt bool // a stored byte of the cached session's secret flips before this connection
-		prebuild int // 1: explicit BuildHandshakeState before Handshake; 2: plus SetClientRandom in between; 3: plus Hello.CipherSuites reduced to one TLS 1.3 suite
+		prebuild int // 1: explicit BuildHandshakeState before Handshake; 2: plus SetClientRandom in between; 3: plus Hello.CipherSuites reduced to one TLS 1.3 suite; 4: BuildHandshakeStateWithoutSession, then Handshake
 		keepSuite uint16
 	}
 	steps := make([]step, nconn)
@@ -141,7 +141,7 @@ func runC19(c *Ctx) {
 			s.corrupt = ch.Bool(8, "corrupt-cached-session")
 		}
 		if ch.Bool(30, "prebuild") {
-			s.prebuild = 1 + ch.Pick(3, "prebuild-kind")
+			s.prebuild = 1 + ch.Pick(4, "prebuild-kind")
 			s.keepSuite = []uint16{tls.TLS_AES_128_GCM_SHA256, tls.TLS_CHACHA20_POLY1305_SHA256, tls.TLS_CHACHA20_POLY1305_SHA256, tls.TLS_AES_256_GCM_SHA384}[ch.Pick(4, "keep-suite")]
 		}
 		steps[i] = s
@@ -224,6 +224,11 @@ func runC19(c *Ctx) {
 			var rnd [32]byte
 			ch.Bytes(rnd[:], "client-random")
 			sp.Prep = func(u *tls.UConn) error {
+				if pb == 4 {
+					// inspect first: the hello is marshalled once without any session, Handshake then
+					// loads the cached session into the same extensions
+					return u.BuildHandshakeStateWithoutSession()
+				}
 				if err := u.BuildHandshakeState(); err != nil {
 					return err
 				}
